@@ -37,7 +37,9 @@ def main():
         assert rc == 0, o
         env = dict(os.environ, PYTHONPATH='%s/src:%s' % (wt, wt))
         if demo != '-' and '--skip-confirm' not in flags:
-            demo = os.path.abspath(demo)
+            import shutil
+            shutil.copy(os.path.abspath(demo), os.path.join(wt, '_demo.py'))     # sys.path[0] is the script's directory
+            demo = '_demo.py'
             rc, o = sh('/venv/bin/python %s' % demo, cwd=wt, env=env)
             out['demo_clean_exit'] = rc
         rc, o = sh('git apply %s || git apply --3way %s' % (patch, patch), cwd=wt)
